@@ -413,13 +413,24 @@ impl<Store: StorageData> DbImpl<Store> {
         &mut self,
         f: impl FnOnce(&mut TransactionMut<Store>) -> Result<T, E>,
     ) -> Result<T, E> {
+        // Bracket the whole closure (and the logical rollback) in a single
+        // storage transaction so that the write ahead log is only purged once
+        // everything is done. A crash at any point in between is then undone
+        // as a whole when the database is next opened.
+        let id = self.storage.transaction();
         let mut transaction = TransactionMut::new(&mut *self);
         let result = f(&mut transaction);
 
-        if result.is_ok() {
-            transaction.commit()?;
+        let finished = if result.is_ok() {
+            transaction.commit()
         } else {
-            transaction.rollback()?;
+            transaction.rollback()
+        };
+        let committed = self.storage.commit(id);
+        finished?;
+
+        if result.is_ok() {
+            committed?;
         }
 
         result
